@@ -100,7 +100,11 @@ func vh_udp_arrival() {
 	vassert(len(u.vhQueue()) == len(want), "queue built")
 	switch vnChoice("state", 3) {
 	case 1:
-		vassert(e.Shutdown(tcpip.ShutdownRead) == nil && e.rcvClosed, "Shutdown(read) closes the receive side")
+		fl := tcpip.ShutdownRead
+		if vnBool("alsowrite") {
+			fl |= tcpip.ShutdownWrite
+		}
+		vassert(e.Shutdown(fl) == nil && e.rcvClosed, "Shutdown(read) - alone or together with write - closes the receive side")
 	case 2:
 		e.rcvReady = false
 	}
@@ -223,4 +227,70 @@ func vh_udp_arbitrary() {
 	}
 	vassert(sum == u.e.rcvBufSize, "buffer accounting matches the queue after any input")
 	vreach("udp")
+}
+
+// ---------- C06: emitted UDP datagrams ----------
+func vhOnes(a, b uint16) uint16 {
+	s := uint32(a) + uint32(b)
+	return uint16(s&0xffff) + uint16(s>>16)
+}
+func vhSum(b []byte, init uint16) uint16 {
+	s := init
+	i := 0
+	for ; i+1 < len(b); i += 2 {
+		s = vhOnes(s, uint16(b[i])<<8|uint16(b[i+1]))
+	}
+	if i < len(b) {
+		s = vhOnes(s, uint16(b[i])<<8)
+	}
+	return s
+}
+
+func vh_emit_udp() {
+	u := vhEP(64)
+	n := vnChoice("len", 4)
+	p := vnBytes("p", n)
+	want := append([]byte{}, p...)
+	lp, dp := vnU16("lport"), vnU16("dport")
+	var vv buffer.VectorisedView
+	if n > 0 {
+		vv = buffer.View(p).ToVectorisedView()
+	}
+	err := sendUDP(&u.r, vv, lp, dp, 9)
+	vassert(err == nil && len(u.net.Sent) == 1, "one datagram is handed to the network layer")
+	pk := u.net.Sent[0]
+	h := pk.Hdr
+	vassert(len(h) == 8 && pk.Proto == ProtocolNumber && pk.TTL == 9 && pk.Local == vhLocal && pk.Remote == vhRemote, "an 8-byte UDP header, addressed per the route")
+	vassert(uint16(h[0])<<8|uint16(h[1]) == lp && uint16(h[2])<<8|uint16(h[3]) == dp && int(uint16(h[4])<<8|uint16(h[5])) == 8+n && vhSame(pk.Payload, want), "ports, length = 8 + payload, payload unchanged")
+	l := 8 + n
+	ps := append([]byte{}, []byte(vhLocal)...)
+	ps = append(ps, []byte(vhRemote)...)
+	ps = append(ps, 0, 17, byte(l>>8), byte(l))
+	hz := append([]byte{}, h...)
+	ck := uint16(hz[6])<<8 | uint16(hz[7])
+	hz[6], hz[7] = 0, 0
+	vassert(ck == ^vhSum(append(append(ps, hz...), pk.Payload...), 0), "the UDP checksum is the complemented RFC 1071 sum over pseudo header, header and payload")
+	vreach("udp")
+}
+
+// a datagram scattered over many buffer views (e.g. reassembled from many fragments) is
+// still queued whole
+func vh_udp_manyviews() {
+	u := vhEP(1 << 16)
+	nv := 2 + vnChoice("views", vparam("maxviews", 10))
+	payload := vnBytes("payload", nv)
+	hdr := make([]byte, 8)
+	header.UDP(hdr).Encode(&header.UDPFields{SrcPort: 7, DstPort: 53, Length: uint16(8 + nv)})
+	views := []buffer.View{buffer.View(hdr)}
+	for i := 0; i < nv; i++ {
+		views = append(views, buffer.View(payload[i:i+1]))
+	}
+	vv := buffer.NewVectorisedView(8+nv, views)
+	id := stack.TransportEndpointID{LocalPort: 53, LocalAddress: vhLocal, RemotePort: 7, RemoteAddress: vhRemote}
+	u.e.HandlePacket(&u.r, id, vv)
+	q := u.vhQueue()
+	vassert(len(q) == 1 && vhSame(q[0].payload, payload), "a datagram arriving in many views is queued whole, byte for byte")
+	v, _, err := u.e.Read(nil)
+	vassert(err == nil && vhSame(v, payload), "and read back whole")
+	vreach("manyviews")
 }
